@@ -16,22 +16,24 @@ import os
 import shutil
 import subprocess
 import time
+from concurrent.futures import ThreadPoolExecutor
 
 import vlib
 
 PID = "X05"
 KEEP_FIELDS = {"t", "seq", "e", "norm", "dmap", "nf", "jbox", "junkName", "msgs", "msg", "quar", "snap", "ad",
-               "res", "acct", "outs", "fault", "calls", "orphans"}
+               "res", "acct", "outs", "fault", "calls", "orphans", "watch", "told"}
 
 ALL_ADDRS = ["a", "aC", "aW", "b", "bC", "bA", "u", "x", "s", "sC", "g", "f"]
 ALL_NORMS = ["precis_casefold_email", "precis_email", "casefold", "noop"]
-ALL_DEVS = ["CaseKey", "MapErrPerm", "BlobLeak"]
+ALL_DEVS = ["CaseKey", "MapErrPerm", "BlobLeak", "EarlyNotify"]
 
 # which predicates a deviation of the as-is model can make false
 DEV_PREDS = {
     "CaseKey": {"ExtraCopy", "WrongMailbox", "MissingFlag"},
     "MapErrPerm": {"LookupFailureReportedPermanent"},
     "BlobLeak": {"OrphanBlob"},
+    "EarlyNotify": {"AnnouncedUncommitted"},
 }
 
 CFG = """SPECIFICATION %(spec)s
@@ -47,6 +49,7 @@ CONSTANTS
   JBoxes = {%(jboxes)s}
   JunkNames = {%(junk)s}
   QuarSet = {%(quar)s}
+  WatchSet = {%(watch)s}
   EnvActs = {%(env)s}
   DelAccts = {%(dels)s}
   Faults = %(faults)s
@@ -70,11 +73,11 @@ def b(xs):
 
 
 def cfg(addrs, maxlist=2, maxmsgs=1, norms=("precis_casefold_email",), dmaps=(False,), nfilts=(0,),
-        out1=("n",), out2=("n",), jboxes=("none",), junk=("Junk",), quar=(False,), env=(), dels=(),
+        out1=("n",), out2=("n",), jboxes=("none",), junk=("Junk",), quar=(False,), watch=(True,), env=(), dels=(),
         faults=False, devs=(), gen=False, tail=MC_TAIL, spec="Spec"):
     return CFG % dict(spec=spec, addrs=q(addrs), maxlist=maxlist, maxmsgs=maxmsgs, norms=q(norms), dmaps=b(dmaps),
                       nfilts=", ".join(str(n) for n in nfilts), out1=q(out1), out2=q(out2), jboxes=q(jboxes),
-                      junk=q(junk), quar=b(quar), env=q(env), dels=q(dels),
+                      junk=q(junk), quar=b(quar), watch=b(watch), env=q(env), dels=q(dels),
                       faults="TRUE" if faults else "FALSE", devs=q(devs),
                       gen="TRUE" if gen else "FALSE", tail=tail)
 
@@ -96,7 +99,7 @@ MC_THOROUGH_C = dict(addrs=["a", "b", "u"], maxlist=2, maxmsgs=2, norms=["precis
 
 # as-is models: each deviation alone must be found by NoViolation
 ASIS = dict(addrs=["a", "aC", "b", "f"], maxlist=2, norms=["precis_casefold_email", "noop"], dmaps=[False, True],
-            nfilts=[0, 1], out1=["n", "wF"], quar=[False, True])
+            nfilts=[0, 1], out1=["n", "wF"], quar=[False, True], watch=[True])
 
 # directed families of behaviours (exhaustive, Gen = TRUE): name -> constants
 FAMILIES = {
@@ -130,10 +133,12 @@ THOROUGH_SIM = 8000
 THOROUGH_FAMILY_CAP = 9000
 
 SIM = dict(addrs=ALL_ADDRS, maxlist=3, maxmsgs=2, norms=ALL_NORMS, dmaps=[False, True], nfilts=[0, 1, 2],
+           watch=[False, True],
            out1=["e", "n", "nF", "w", "wF", "x"], out2=["e", "n", "r", "x"], jboxes=["none", "special", "plain"],
            junk=["Junk", "Suspect"], quar=[False, True], env=["Delete", "Login"], dels=["a", "b"], faults=True)
 
-TRACE = dict(addrs=["a"], maxlist=1, maxmsgs=3, norms=["noop"], nfilts=[0], out1=["e", "n", "nF", "w", "wF", "x"],
+TRACE = dict(addrs=["a"], maxlist=1, maxmsgs=3, norms=["noop"], nfilts=[0], watch=[False, True],
+             out1=["e", "n", "nF", "w", "wF", "x"],
              out2=["e", "n", "r", "x"], env=["Delete", "Login"], dels=["a", "b"], faults=True)
 
 
@@ -222,9 +227,10 @@ def run(ctx, replay):
                 name, r["distinct"], r["generated"], r["depth"], r["wall"]))
         ctx.cov["states"], ctx.cov["transitions"], ctx.cov["model_depth"] = st, tr, dp
         # every named deviation alone must be found by the same invariant (non-vacuity)
-        for d in ALL_DEVS:
-            ra = ctx.tlc("LocalStore", None, name="asis-" + d, workers=4, timeout=300,
-                         cfg_text=cfg(devs=[d], tail=ASIS_TAIL, **ASIS))
+        with ThreadPoolExecutor(max_workers=4) as ex:
+            asis = list(ex.map(lambda d: ctx.tlc("LocalStore", None, name="asis-" + d, workers=2, timeout=300,
+                                                 cfg_text=cfg(devs=[d], tail=ASIS_TAIL, **ASIS)), ALL_DEVS))
+        for d, ra in zip(ALL_DEVS, asis):
             if ra["invariant"] != "NoViolation":
                 raise vlib.Infra("as-is model (%s) no longer violates NoViolation: the invariant is vacuous "
                                  "(%s)" % (d, ra["error"]))
@@ -238,9 +244,12 @@ def run(ctx, replay):
     else:
         behs = []
         fam_counts = {}
-        for name in sorted(FAMILIES):
-            g = ctx.tlc("LocalStore", None, name="gen-" + name, workers=4, timeout=900,
-                        cfg_text=cfg(devs=devs_open, gen=True, tail=GEN_TAIL, **FAMILIES[name]))
+        names = sorted(FAMILIES)
+        with ThreadPoolExecutor(max_workers=4) as ex:
+            gens = list(ex.map(lambda name: ctx.tlc(
+                "LocalStore", None, name="gen-" + name, workers=2, timeout=900,
+                cfg_text=cfg(devs=devs_open, gen=True, tail=GEN_TAIL, **FAMILIES[name])), names))
+        for name, g in zip(names, gens):
             if not g["ok"]:
                 raise vlib.Infra("behaviour generation (%s) failed: %s %s" % (name, g["invariant"], g["error"]))
             fb = behaviours_from(g)
